@@ -2,10 +2,14 @@
    specification (split-at-weakest oracle over the documented table) to OCaml. *)
 From Coq Require Import ZArith String List ExtrOcamlBasic.
 Require Import ZV.Model.PrattLvalue ZV.Model.PrattSlice ZV.Model.PrattTypes ZV.Model.Pratt ZV.Model.PrattSpec ZV.Model.PrattFor ZV.Generated.InfixTable.
+(* the lexer model and the ring-free specification lexer; required AFTER the Pratt modules so that the
+   Pratt token constructors keep their names in model.ml (the driver only uses lex_obs / lexp_obs) *)
+Require Import ZV.Model.Lexer ZV.Model.LexerPrev.
 (* Coq strings become lists of (extracted) ascii, so that model.ml defines no type called
    `string` (ocaml/common/zutil.ml opens Model and uses OCaml's string type). *)
 Extract Inductive string => "(ascii list)" [ "[]" "(fun (a, s) -> a :: s)" ]
   "(fun fe fs s -> match s with [] -> fe () | a :: s' -> fs a s')".
 Extraction "model.ml" Z.add Z.mul Z.opp Z.div_eucl Z.of_nat Z.to_nat Z.compare
   infix_entries infix_lbp m_parse_block m_parse_one norm_selector led_of nud_of led_head nud_head
-  dget assign nkeys select_model select_spec shape_of split_colon_tail yield parse_block_for for_consts Doc.block Doc.parse Doc.selector Doc.bin_head.
+  dget assign nkeys select_model select_spec shape_of split_colon_tail yield parse_block_for for_consts Doc.block Doc.parse Doc.selector Doc.bin_head
+  lex_obs lexp_obs.
